@@ -228,6 +228,33 @@ def run_case(case, ctx):
                 if p is not None and p.resolution is not None:
                     objs.append(p.resolution)
         mon.events["contract_evals_inside_search"] += mon.events["contract_eq"] + mon.events["contract_hash"] - n0
+        # objects that went through the rules (and may have been built in unusual ways) against freshly built equal values
+        from ..spec import grammar as G
+        texts = [G.expression(r)[1] for j in range(25)]
+        if case["i"] % 4 == 0:
+            # values that rules special-case (12 am / 12 pm, midnight, hour 0, wrapped ranges) in every am/pm notation
+            for cn, (fn, fl) in G.CLOCK.items():
+                if fl.get("ampm"):
+                    for h, mi in ((0, 0), (0, 30), (12, 0), (12, 15)):
+                        t = fn(h, mi)
+                        if t:
+                            texts += [t, "after " + t, "until " + t, "tomorrow " + t]
+            texts += ["midnight", "9-5", "23:00 - 3:00", "12:00 - 0:00", "halb eins", "quarter to 1"]
+        for t in texts:
+            for lat in (False, True):
+                for p in L.ctparse_gen(t, ts=ts, timeout=0, latent_time=lat):
+                    if p is None or p.resolution is None:
+                        continue
+                    o = p.resolution
+                    try:
+                        fresh = parse_nb_string(o.nb_str())
+                    except Exception:
+                        continue      # text-form problems are reported by the generic part below
+                    mon.events["parsed_vs_rebuilt"] += 1
+                    cmp(o, fresh)
+                    if not (o == fresh) or hash(o) != hash(fresh):
+                        problems.append("a resolution produced by the parser (%r from %r) and a freshly built equal value compare/hash differently: eq=%r hashes %r/%r" % (
+                            o, t, o == fresh, hash(o), hash(fresh)))
         key = "parse/%d" % case["i"]
 
     # text form: injective on values, round-trips
